@@ -22,6 +22,7 @@ import (
 	"os"
 	"reflect"
 	"sort"
+	"strings"
 	"time"
 
 	cmapi "github.com/cert-manager/cert-manager/pkg/apis/certmanager/v1"
@@ -150,6 +151,9 @@ type Step struct {
 	Kind      string   `json:"kind"` // edit | resync | remove | identity | first
 	CMFaults  []string `json:"cm_faults"`
 	DNSFaults []string `json:"dns_faults"`
+	// delivery family only
+	Noise  int    `json:"noise,omitempty"`  // status.message of the VirtualServer (a change no derived object depends on)
+	Tamper string `json:"tamper,omitempty"` // delete-cert | edit-cert | delete-dns | edit-dns: somebody else changes the derived object first
 }
 
 type CMObs struct {
@@ -157,6 +161,7 @@ type CMObs struct {
 	Err   string     `json:"err"`
 	Store []CertObj  `json:"store"` // the cluster (object tracker of the fake clientset) after the step
 	Cache *[]CertObj `json:"cache"` // the lister cache before the step, when it differs from the cluster; else null
+	Pre   *[]CertObj `json:"pre"`   // the cluster before the step when somebody else changed it since the last step; else null
 }
 
 type DNSObs struct {
@@ -164,6 +169,7 @@ type DNSObs struct {
 	Err   string    `json:"err"`
 	Store []DNSObj  `json:"store"`
 	Cache *[]DNSObj `json:"cache"`
+	Pre   *[]DNSObj `json:"pre"`
 }
 
 type StepObs struct {
@@ -176,6 +182,17 @@ type StepObs struct {
 	FreshCertErr string   `json:"fresh_cert_err"`
 	FreshDNS     *DNSObj  `json:"fresh_dns"`
 	FreshDNSErr  string   `json:"fresh_dns_err"`
+	Delivery     *DeliveryObs `json:"delivery,omitempty"`
+}
+
+// DeliveryObs says what the event-handler / work-queue layer did in a step of the delivery family.
+type DeliveryObs struct {
+	VSEvent     string   `json:"vs_event"`     // add | update | none
+	Enqueued    []string `json:"enqueued"`     // controllers whose queue held the VirtualServer after the VirtualServer event
+	DerivedEvts int      `json:"derived_evts"` // watch events of derived objects handed to the owner-reference handlers
+	Processed   []string `json:"processed"`    // controller:key for every processItem run while draining
+	RanCM       bool     `json:"ran_cm"`       // processItem ran for the VirtualServer in the cert-manager controller
+	RanDNS      bool     `json:"ran_dns"`
 }
 
 type Obs struct {
@@ -189,6 +206,7 @@ type Case struct {
 	InitCerts []CertObj `json:"init_certs"`
 	InitDNS   []DNSObj  `json:"init_dns"`
 	Steps     []Step    `json:"steps"`
+	Delivery  bool      `json:"delivery,omitempty"` // drive the event handlers, queues and processItem instead of calling the sync functions
 	Obs       Obs       `json:"obs"`
 }
 
@@ -430,6 +448,13 @@ type world struct {
 	dnsDelivered map[string][]byte
 	lastCerts    []CertObj // projection of the cluster after the last delivery
 	lastDNS      []DNSObj
+	// delivery family: the controllers' own handler / queue / processItem layers
+	ctlCM     *certmanager.VerifCtl
+	ctlDNS    *externaldns.VerifCtl
+	derivedEv int
+	vsGen     int64
+	vsRV      int64
+	vsLast    *vsapi.VirtualServer
 }
 
 func isWrite(verb string) bool { return verb == "create" || verb == "update" || verb == "delete" || verb == "patch" }
@@ -467,6 +492,10 @@ func newIndexer() cache.Indexer {
 }
 
 func newWorld(initCerts []CertObj, initDNS []DNSObj, decoyUID string) *world {
+	return newWorldOpt(initCerts, initDNS, decoyUID, false)
+}
+
+func newWorldOpt(initCerts []CertObj, initDNS []DNSObj, decoyUID string, delivery bool) *world {
 	w := &world{dnsKnown: map[string][2]string{}, cmDelivered: map[string][]byte{}, dnsDelivered: map[string][]byte{}}
 	var cmObjs, dnsObjs []runtime.Object
 	for _, o := range initCerts {
@@ -508,6 +537,13 @@ func newWorld(initCerts []CertObj, initDNS []DNSObj, decoyUID string) *world {
 		}
 		return false, nil, nil
 	})
+	if delivery {
+		// the real controllers: their informers' indexers are the lister caches
+		w.ctlCM = certmanager.VerifNewCtl(quietCtx, nopRecorder{}, w.cm, w.dns)
+		w.ctlDNS = externaldns.VerifNewCtl(quietCtx, nopRecorder{}, w.dns)
+		w.cmIdx, w.dnsIdx = w.ctlCM.DerivedStore, w.ctlDNS.DerivedStore
+		return w
+	}
 	w.cmIdx = newIndexer()
 	w.dnsIdx = newIndexer()
 	w.cmSync = certmanager.VerifSyncFn(nopRecorder{}, w.cm, cmlisters.NewCertificateLister(w.cmIdx))
@@ -520,8 +556,14 @@ func newWorld(initCerts []CertObj, initDNS []DNSObj, decoyUID string) *world {
 // that left the cluster is removed (delete event).  An object the cluster did not change is NOT
 // touched, so whatever a synchronization function did to the pointer it got from the lister stays
 // in the cache, as it does in production.
-func deliverTo(idx cache.Indexer, delivered map[string][]byte, seen map[string][]byte, decode func([]byte) (interface{}, error)) error {
-	for k, b := range seen {
+func deliverTo(idx cache.Indexer, delivered map[string][]byte, seen map[string][]byte, decode func([]byte) (interface{}, error), ev func(old, cur interface{})) error {
+	var keys []string
+	for k := range seen {
+		keys = append(keys, k)
+	}
+	sort.Strings(keys)
+	for _, k := range keys {
+		b := seen[k]
 		if old, ok := delivered[k]; ok && string(old) == string(b) {
 			continue
 		}
@@ -529,22 +571,62 @@ func deliverTo(idx cache.Indexer, delivered map[string][]byte, seen map[string][
 		if err != nil {
 			return err
 		}
+		old, _, _ := idx.GetByKey(k)
 		if err := idx.Update(o); err != nil {
 			return err
 		}
 		delivered[k] = b
+		if ev != nil {
+			ev(old, o)
+		}
 	}
+	keys = keys[:0]
 	for k := range delivered {
+		keys = append(keys, k)
+	}
+	sort.Strings(keys)
+	for _, k := range keys {
 		if _, ok := seen[k]; !ok {
 			if o, exists, _ := idx.GetByKey(k); exists {
 				if err := idx.Delete(o); err != nil {
 					return err
+				}
+				if ev != nil {
+					ev(o, nil)
 				}
 			}
 			delete(delivered, k)
 		}
 	}
 	return nil
+}
+
+// dispatch hands a watch event to a handler the way a shared informer does.
+func (w *world) dispatch(h cache.ResourceEventHandler) func(old, cur interface{}) {
+	if h == nil {
+		return nil
+	}
+	return func(old, cur interface{}) {
+		w.derivedEv++
+		switch {
+		case old == nil:
+			h.OnAdd(cur, false)
+		case cur == nil:
+			h.OnDelete(old)
+		default:
+			h.OnUpdate(old, cur)
+		}
+	}
+}
+
+func (w *world) derivedHandlers() (cm, dns cache.ResourceEventHandler) {
+	if w.ctlCM != nil {
+		cm = w.ctlCM.Derived
+	}
+	if w.ctlDNS != nil {
+		dns = w.ctlDNS.Derived
+	}
+	return
 }
 
 // snapshot deep-copies every object of both lister caches.
@@ -687,16 +769,17 @@ func (w *world) refresh() ([]CertObj, []DNSObj, []string, error) {
 	if !seenDecoy {
 		complaints = append(complaints, "decoy DNSEndpoint in other namespace deleted")
 	}
+	hCM, hDNS := w.derivedHandlers()
 	if err := deliverTo(w.cmIdx, w.cmDelivered, cseen, func(b []byte) (interface{}, error) {
 		c := &cmapi.Certificate{}
 		return c, json.Unmarshal(b, c)
-	}); err != nil {
+	}, w.dispatch(hCM)); err != nil {
 		return nil, nil, nil, err
 	}
 	if err := deliverTo(w.dnsIdx, w.dnsDelivered, dseen, func(b []byte) (interface{}, error) {
 		d := &extdnsapi.DNSEndpoint{}
 		return d, json.Unmarshal(b, d)
-	}); err != nil {
+	}, w.dispatch(hDNS)); err != nil {
 		return nil, nil, nil, err
 	}
 	sort.Slice(certs, func(i, j int) bool { return certs[i].Name < certs[j].Name })
@@ -777,6 +860,216 @@ func (w *world) step(st Step) (so StepObs) {
 	return
 }
 
+// ---------- delivery family: VirtualServer event -> real handlers -> real queues -> real processItem ----------
+
+var (
+	certGVR = cmapi.SchemeGroupVersion.WithResource("certificates")
+	dnsGVR  = extdnsapi.SchemeGroupVersion.WithResource("dnsendpoints")
+)
+
+// tamper lets somebody else delete or edit the derived object the VirtualServer controls, straight in
+// the cluster.  Reports whether anything was changed.
+func (w *world) tamper(kind string, v VSIn) bool {
+	ctx := context.Background()
+	switch kind {
+	case "delete-cert", "edit-cert":
+		if v.TLS == nil {
+			return false
+		}
+		c, err := w.cm.CertmanagerV1().Certificates(ns).Get(ctx, v.TLS.Secret, metav1.GetOptions{})
+		if err != nil {
+			return false
+		}
+		if o, _ := projOwner(c.OwnerReferences); o != v.UID {
+			return false
+		}
+		if kind == "delete-cert" {
+			return w.cm.Tracker().Delete(certGVR, ns, c.Name) == nil
+		}
+		c.Spec.DNSNames = []string{"tampered.example.com"}
+		return w.cm.Tracker().Update(certGVR, c, ns) == nil
+	case "delete-dns", "edit-dns":
+		d, err := w.dns.ExternaldnsV1().DNSEndpoints(ns).Get(ctx, v.Name, metav1.GetOptions{})
+		if err != nil {
+			return false
+		}
+		if o, _ := projOwner(d.OwnerReferences); o != v.UID {
+			return false
+		}
+		if kind == "delete-dns" {
+			return w.dns.Tracker().Delete(dnsGVR, ns, d.Name) == nil
+		}
+		if len(d.Spec.Endpoints) == 0 || d.Spec.Endpoints[0] == nil {
+			return false
+		}
+		d.Spec.Endpoints[0].Targets = extdnsapi.Targets{"192.0.2.99"}
+		return w.dns.Tracker().Update(dnsGVR, d, ns) == nil
+	}
+	return false
+}
+
+// offerVS puts the VirtualServer as it is now into the VirtualServer informer stores of both
+// controllers and calls their real VirtualServer handlers the way the informer does.  The API server's
+// bookkeeping is reproduced: metadata.generation moves only when the spec changes (status is a
+// subresource, labels are metadata), resourceVersion moves with every change.
+func (w *world) offerVS(st Step) string {
+	vs := buildVS(st.VS)
+	vs.Status.Message = fmt.Sprintf("noise-%d", st.Noise)
+	old := w.vsLast
+	type side struct {
+		store cache.Indexer
+		h     cache.ResourceEventHandler
+	}
+	sides := []side{{w.ctlCM.VSStore, w.ctlCM.VS}, {w.ctlDNS.VSStore, w.ctlDNS.VS}}
+	ev := "update"
+	if old != nil && (old.UID != vs.UID || old.Name != vs.Name) {
+		for _, sd := range sides {
+			if o, ok, _ := sd.store.GetByKey(ns + "/" + old.Name); ok {
+				_ = sd.store.Delete(o)
+				sd.h.OnDelete(o)
+			}
+		}
+		old = nil
+	}
+	if old == nil {
+		w.vsGen = 1
+		w.vsRV++
+		ev = "add"
+	} else {
+		if !reflect.DeepEqual(old.Spec, vs.Spec) {
+			w.vsGen++
+		}
+		if !reflect.DeepEqual(old.Spec, vs.Spec) || !reflect.DeepEqual(old.Labels, vs.Labels) || !reflect.DeepEqual(old.Status, vs.Status) {
+			w.vsRV++
+		} else {
+			ev = "resync"
+		}
+	}
+	vs.Generation = w.vsGen
+	vs.ResourceVersion = fmt.Sprint(w.vsRV)
+	for _, sd := range sides {
+		cur := vs.DeepCopy()
+		prev, existed, _ := sd.store.GetByKey(ns + "/" + vs.Name)
+		_ = sd.store.Update(cur)
+		if existed {
+			sd.h.OnUpdate(prev, cur)
+		} else {
+			sd.h.OnAdd(cur, false)
+		}
+	}
+	w.vsLast = vs
+	return ev
+}
+
+func (w *world) dstep(st Step) (so StepObs) {
+	so.Unexpected = []string{}
+	so.CacheMutated = []string{}
+	so.CM.Log, so.DNS.Log = []KV{}, []KV{}
+	dv := &DeliveryObs{Enqueued: []string{}, Processed: []string{}}
+	so.Delivery = dv
+	defer func() {
+		if r := recover(); r != nil {
+			so.Panic = fmt.Sprint(r)
+		}
+	}()
+	w.cmFaults, w.dnsFaults = nil, nil
+	w.derivedEv = 0
+	if st.Tamper != "" && w.tamper(st.Tamper, st.VS) {
+		// the watch delivers the foreign change; the owner-reference handler sees it
+		certs, dnss, complaints, err := w.refresh()
+		if err != nil {
+			so.Panic = "harness: refresh: " + err.Error()
+			return
+		}
+		so.Unexpected = append(so.Unexpected, complaints...)
+		if strings.HasSuffix(st.Tamper, "-cert") {
+			so.CM.Pre = &certs
+		} else {
+			so.DNS.Pre = &dnss
+		}
+	} else {
+		w.cm.ClearActions()
+		w.dns.ClearActions()
+	}
+	if cc, dc := w.cacheView(); !reflect.DeepEqual(cc, w.lastCerts) || !reflect.DeepEqual(dc, w.lastDNS) {
+		if !reflect.DeepEqual(cc, w.lastCerts) {
+			so.CM.Cache = &cc
+		}
+		if !reflect.DeepEqual(dc, w.lastDNS) {
+			so.DNS.Cache = &dc
+		}
+	}
+	dv.VSEvent = w.offerVS(st)
+	vsKey := ns + "/" + st.VS.Name
+	if w.ctlCM.QueueLen() > 0 {
+		dv.Enqueued = append(dv.Enqueued, "cert-manager")
+	}
+	if w.ctlDNS.QueueLen() > 0 {
+		dv.Enqueued = append(dv.Enqueued, "externaldns")
+	}
+	var cmErr, dnsErr error
+	retries := map[string]int{}
+	for round := 0; round < 16; round++ {
+		before := w.snapshot()
+		n := 0
+		for {
+			key, err, ok := w.ctlCM.ProcessNext(quietCtx)
+			if !ok {
+				break
+			}
+			n++
+			dv.Processed = append(dv.Processed, "cert-manager:"+key)
+			if key == vsKey {
+				cmErr = err
+				dv.RanCM = true
+			}
+			if err != nil && retries["cm:"+key] < 1 {
+				retries["cm:"+key]++
+				w.ctlCM.Requeue(ns, strings.TrimPrefix(key, ns+"/"))
+			}
+		}
+		for {
+			key, err, ok := w.ctlDNS.ProcessNext(quietCtx)
+			if !ok {
+				break
+			}
+			n++
+			dv.Processed = append(dv.Processed, "externaldns:"+key)
+			if key == vsKey {
+				dnsErr = err
+				dv.RanDNS = true
+			}
+			if err != nil && retries["dns:"+key] < 1 {
+				retries["dns:"+key]++
+				w.ctlDNS.Requeue(ns, strings.TrimPrefix(key, ns+"/"))
+			}
+		}
+		so.CacheMutated = append(so.CacheMutated, w.mutated(before)...)
+		l1, u1 := collect(w.cm.Actions(), "certificates")
+		l2, u2 := collect(w.dns.Actions(), "dnsendpoints")
+		so.CM.Log = append(so.CM.Log, l1...)
+		so.DNS.Log = append(so.DNS.Log, l2...)
+		so.Unexpected = append(append(so.Unexpected, u1...), u2...)
+		// the watch delivers what the synchronizations wrote; the owner-reference handlers may enqueue again
+		certs, dnss, complaints, err := w.refresh()
+		if err != nil {
+			so.Panic = "harness: refresh: " + err.Error()
+			return
+		}
+		so.CM.Store, so.DNS.Store = certs, dnss
+		so.Unexpected = append(so.Unexpected, complaints...)
+		if n == 0 && w.ctlCM.QueueLen() == 0 && w.ctlDNS.QueueLen() == 0 {
+			break
+		}
+		if round == 15 {
+			so.Unexpected = append(so.Unexpected, "work queues did not drain in 16 rounds")
+		}
+	}
+	so.CM.Err, so.DNS.Err = errClass(cmErr), errClass(dnsErr)
+	dv.DerivedEvts = w.derivedEv
+	return
+}
+
 // firstTime runs the same VirtualServer against an empty cluster: what a first-time
 // synchronization creates.
 func firstTime(v VSIn) (c *CertObj, cerr string, d *DNSObj, derr string) {
@@ -818,7 +1111,11 @@ func runCase(c *Case) {
 	if len(c.Steps) > 0 {
 		decoy = c.Steps[0].VS.UID
 	}
-	w := newWorld(c.InitCerts, c.InitDNS, decoy)
+	w := newWorldOpt(c.InitCerts, c.InitDNS, decoy, c.Delivery)
+	if c.Delivery {
+		defer w.ctlCM.Shutdown()
+		defer w.ctlDNS.Shutdown()
+	}
 	certs, dnss, complaints, err := w.refresh()
 	if err != nil {
 		c.Obs = Obs{Error: "refresh: " + err.Error()}
@@ -831,9 +1128,36 @@ func runCase(c *Case) {
 	// the initial stores as the cluster really holds them (normalised)
 	c.InitCerts, c.InitDNS = certs, dnss
 	c.Obs = Obs{}
+	if c.Delivery {
+		// the initial objects reached the owner-reference handlers as Add events; the VirtualServers they
+		// name do not exist yet, so draining is a no-op
+		for w.ctlCM.QueueLen() > 0 {
+			w.ctlCM.ProcessNext(quietCtx)
+		}
+		for w.ctlDNS.QueueLen() > 0 {
+			w.ctlDNS.ProcessNext(quietCtx)
+		}
+	}
 	for _, st := range c.Steps {
-		so := w.step(st)
+		var so StepObs
+		if c.Delivery {
+			so = w.dstep(st)
+		} else {
+			so = w.step(st)
+		}
 		so.FreshCert, so.FreshCertErr, so.FreshDNS, so.FreshDNSErr = firstTime(st.VS)
+		if c.Delivery && so.Delivery != nil {
+			// no fault is injected in this family, so an error of a synchronization is a property of the
+			// VirtualServer alone.  When a controller did not synchronize at all in this step (event
+			// dropped, or nothing offered), report the error class a synchronization would have had: the
+			// step is then judged like any other -- fine iff a synchronization would have been a no-op.
+			if !so.Delivery.RanCM {
+				so.CM.Err = so.FreshCertErr
+			}
+			if !so.Delivery.RanDNS {
+				so.DNS.Err = so.FreshDNSErr
+			}
+		}
 		c.Obs.Steps = append(c.Obs.Steps, so)
 		if so.Panic != "" {
 			break
@@ -1105,7 +1429,74 @@ func genInitDNS(r *vh.Rng, name string) DNSObj {
 	return o
 }
 
+// sanitizeDelivery keeps the delivery family away from the known non-idempotent input
+// (externalDNS.labels: {}), which the direct family covers: there a re-enqueue by the owner-reference
+// handler would write again and blur what a single synchronization does.
+func sanitizeDelivery(v *VSIn) {
+	if v.XDNS.Labels != nil && len(*v.XDNS.Labels) == 0 {
+		v.XDNS.Labels = nil
+	}
+}
+
+// genDelivery: a history that goes through the event handlers, the work queues and processItem.
+// Every kind of change of the VirtualServer that changes what a first-time synchronization creates is
+// offered (spec edits, labels, status.externalEndpoints), plus changes nothing depends on, plus
+// foreign deletes / edits of the derived objects.
+func genDelivery(r *vh.Rng, id int) *Case {
+	c := &Case{ID: id, Class: "delivery", Delivery: true}
+	if r.Chance(1, 2) {
+		for _, sname := range secrets {
+			if r.Chance(1, 3) {
+				o := genInitCert(r, sname)
+				o.Owner, o.Ref = ownerOf(vh.Pick(r, []string{"none", "foreign", "foreign-deploy", "ref"}))
+				c.InitCerts = append(c.InitCerts, o)
+			}
+		}
+		if r.Chance(1, 4) {
+			o := genInitDNS(r, "vs-a")
+			o.Owner, o.Ref = ownerOf(vh.Pick(r, []string{"none", "foreign", "ref"}))
+			c.InitDNS = append(c.InitDNS, o)
+		}
+	}
+	v := baseVS(r)
+	sanitizeDelivery(&v)
+	noise := 0
+	nsteps := 4 + r.Intn(6)
+	for i := 0; i < nsteps; i++ {
+		st := Step{Kind: "first"}
+		if i > 0 {
+			switch k := r.Intn(20); {
+			case k < 8:
+				st.Kind = "edit"
+				edit(r, &v)
+			case k < 11:
+				st.Kind = "endpoints" // status only: the generation does not move
+				v.Endpoints = vh.Pick(r, endpoints)
+			case k < 13:
+				st.Kind = "labels" // metadata only
+				v.Labels = vh.Pick(r, labelSets)
+			case k < 15:
+				st.Kind = "noise"
+				noise++
+			case k < 19:
+				st.Kind = "tamper"
+				st.Tamper = vh.Pick(r, []string{"delete-cert", "edit-cert", "delete-dns", "edit-dns"})
+			default:
+				st.Kind = "remove"
+				removeFeature(r, &v)
+			}
+			sanitizeDelivery(&v)
+		}
+		st.VS, st.Noise = cloneVS(v), noise
+		c.Steps = append(c.Steps, st)
+	}
+	return c
+}
+
 func genCase(r *vh.Rng, id int) *Case {
+	if id%8 == 7 {
+		return genDelivery(r, id)
+	}
 	c := &Case{ID: id}
 	classes := []string{"clean", "preexisting", "preexisting", "faults", "mixed", "mixed", "malformed"}
 	c.Class = classes[id%len(classes)]
@@ -1262,6 +1653,48 @@ func witnesses() []*Case {
 			ep := []ExtEp{{IP: "10.0.0.2"}}
 			v.Endpoints = &ep
 		}, nil, []string{"internal"}))
+	// delivery family: the same kind of histories through the real handlers / queues / processItem
+	dl := func(name string, f0 func(v *VSIn), edits ...func(st *Step, v *VSIn)) *Case {
+		v := base()
+		f0(&v)
+		c := &Case{Class: "witness-delivery-" + name, Delivery: true, Steps: []Step{{VS: cloneVS(v), Kind: "first"}}}
+		noise := 0
+		for _, e := range edits {
+			st := Step{Kind: "edit"}
+			e(&st, &v)
+			if st.Kind == "noise" {
+				noise++
+			}
+			st.VS, st.Noise = cloneVS(v), noise
+			c.Steps = append(c.Steps, st)
+		}
+		return c
+	}
+	noiseStep := func(st *Step, v *VSIn) { st.Kind = "noise" }
+	tamperStep := func(kind string) func(st *Step, v *VSIn) {
+		return func(st *Step, v *VSIn) { st.Kind, st.Tamper = "tamper", kind }
+	}
+	ws = append(ws,
+		dl("status-endpoints", func(v *VSIn) { v.TLS = nil; v.XDNS.Enable = true },
+			noiseStep,
+			func(st *Step, v *VSIn) { st.Kind = "endpoints"; ep := []ExtEp{{IP: "198.51.100.7"}}; v.Endpoints = &ep },
+			func(st *Step, v *VSIn) {
+				st.Kind = "endpoints"
+				ep := []ExtEp{{IP: "198.51.100.7"}, {IP: "198.51.100.8"}}
+				v.Endpoints = &ep
+			},
+			func(st *Step, v *VSIn) { st.Kind = "labels"; v.Labels = []KV{{"app", "x"}} },
+			func(st *Step, v *VSIn) { v.XDNS.TTL = 300 },
+			func(st *Step, v *VSIn) { v.Host = "b.example.com" }),
+		dl("cert-fields", nop,
+			noiseStep,
+			func(st *Step, v *VSIn) { v.TLS.CM.CommonName = "cn.example.com" },
+			func(st *Step, v *VSIn) { v.Host = "b.example.com" },
+			func(st *Step, v *VSIn) { st.Kind = "labels"; v.Labels = []KV{{"app", "x"}} },
+			func(st *Step, v *VSIn) { v.TLS.CM.Duration = "720h" },
+			func(st *Step, v *VSIn) { v.TLS.Secret = "s2" }),
+		dl("derived-events", func(v *VSIn) { v.XDNS.Enable = true },
+			tamperStep("delete-dns"), tamperStep("edit-dns"), tamperStep("delete-cert"), tamperStep("edit-cert"), noiseStep))
 	for i, c := range ws {
 		c.ID = i
 	}
